@@ -1,6 +1,7 @@
 #!/bin/sh
 # tools/try_on_copy.sh <props comma separated|all> <patch.diff> : apply the patch to a throw-away copy of /tmp/clean_repo and run the checks there
 P="$1"; D="$2"
+[ -d /tmp/clean_repo/a816 ] || { mkdir -p /tmp/clean_repo && git -C /repo archive HEAD a816 script | tar -x -C /tmp/clean_repo; }
 T=$(mktemp -d /tmp/a816copy.XXXXXX)
 cp -r /tmp/clean_repo/a816 /tmp/clean_repo/script "$T"/
 D=$(readlink -f "$D"); ( cd "$T" && patch -s -p1 < "$D" ) || { echo "patch failed"; rm -rf "$T"; exit 9; }
